@@ -509,6 +509,58 @@ func main() {
 		c.NonTrivial()
 	})
 
+	// long thin rectangles: thousands of tile rows (or columns) at deep zooms, where row-major tile indexes and
+	// intersection lists get large. The corners are tile centres, so the cover is exactly the tile range.
+	spans := []uint32{300, 1100, 2100}
+	if !r.Quick() {
+		spans = append(spans, 4200, 9000)
+	}
+	r.Explore("long-rectangles", fmt.Sprintf("zoom {16, 20, 21, 22} x spans %v tiles x {tall, wide} x thickness {3, 6} tiles x both windings: the polygon cover is exactly the tile range between the corner tiles", spans), mc.Opts{MaxDev: -1, Split: 2}, func(c *mc.Ctx) {
+		z := maptile.Zoom([]int{16, 20, 21, 22}[c.Choose(4)])
+		span := spans[c.Choose(len(spans))]
+		tall := c.Bool()
+		thick := uint32([]int{3, 6}[c.Choose(2)])
+		cw := c.Bool()
+		x0, y0 := uint32(1)<<(uint32(z)-1)+77, uint32(1)<<(uint32(z)-2)+33
+		w, h := thick, span
+		if !tall {
+			w, h = span, thick
+		}
+		x1, y1 := x0+w-1, y0+h-1
+		a := maptile.New(x0, y0, z).Bound().Center()
+		b := maptile.New(x1, y1, z).Bound().Center()
+		ring := orb.Ring{{a[0], a[1]}, {b[0], a[1]}, {b[0], b[1]}, {a[0], b[1]}, {a[0], a[1]}}
+		if cw {
+			ring.Reverse()
+		}
+		got, err := tilecover.Polygon(orb.Polygon{ring}, z)
+		if err != nil {
+			c.Failf("long-rectangle", "Polygon cover fails: %v | zoom=%d corner tiles (%d,%d)-(%d,%d)", err, z, x0, y0, x1, y1)
+			return
+		}
+		missing, extra := 0, 0
+		var firstMissing maptile.Tile
+		for x := x0; x <= x1; x++ {
+			for y := y0; y <= y1; y++ {
+				if !got[maptile.New(x, y, z)] {
+					if missing == 0 {
+						firstMissing = maptile.New(x, y, z)
+					}
+					missing++
+				}
+			}
+		}
+		for t, v := range got {
+			if v && (t.Z != z || t.X < x0 || t.X > x1 || t.Y < y0 || t.Y > y1) {
+				extra++
+			}
+		}
+		if missing > 0 || extra > 0 {
+			c.Failf("long-rectangle", "the cover of the rectangle between the centres of tiles (%d,%d) and (%d,%d) at zoom %d misses %d of its %d tiles (first: %v) and has %d outside the range", x0, y0, x1, y1, z, missing, w*h, firstMissing, extra)
+		}
+		c.NonTrivial()
+	})
+
 	// ---- merges: model checking over (subset, target zoom, iteration orders) ----
 	type mloc struct {
 		c      *mc.Ctx
